@@ -169,8 +169,11 @@ func (p *PortMod) UnmarshalBinary(data []byte) error {
 	n += 4
 	copy(p.pad, data[n:n+4])
 	n += 4
-	copy(p.HWAddr, data[n:])
-	n += len(p.HWAddr)
+	if len(p.HWAddr) != ETH_ALEN {
+		p.HWAddr = make(net.HardwareAddr, ETH_ALEN)
+	}
+	copy(p.HWAddr, data[n:n+ETH_ALEN])
+	n += ETH_ALEN
 	copy(p.pad2, data[n:n+2])
 	n += 2
 	p.Config = binary.BigEndian.Uint32(data[n:])
